@@ -14,7 +14,7 @@ from sim.runner import RunResult, Violation
 PROP = 'C16'
 
 CRASH_TEMPLATES = ['wraps', 'wraps_annot', 'sigattr', 'fwd', 'meth', 'mod', 'deco',
-                   'asforged', 'comb', 'hostile', 'builtin', 'observed', 'instdep', 'chain']
+                   'asforged', 'comb', 'hostile', 'builtin', 'observed', 'instdep', 'chain', 'siblings']
 
 # worlds whose descriptors carry one-shot first-use state (forger wrappers, translators' bound
 # wrappers, decorator objects); `observed` twice: its Python-level metaclass makes the first bind
